@@ -11,6 +11,12 @@ know about it is here, core Lean only, scalar-generic:
   in their relative order (`retained_sublist`);
 * the fields the real function does not touch (`reload_reg`, `reload_cfg`, …);
 * `NoReload`: the hypothesis of the theorems that follow ONE link through a run by its INDEX.
+
+`mem_createConnections` / `mem_reload` are the SOUNDNESS direction only (what a link of the post-state can be).  The
+converse and the closed forms — which addresses are attempted (`mem_neededAddrs_iff`, `neededAddrs_nodup`,
+`neededAddrs_firstOcc`, `neededAddrs_unique`), which attempt yields which link (`createConnections_eq`,
+`mem_createConnections_iff`) — are in `Lemmas/ReloadExact.lean`; the property-level statements in
+`Props/SysReload.lean` (`reload_exact`, `mem_reload_iff`, `reload_adds`).
 -/
 namespace Srtla.Sys
 open Srtla Srtla.Link Srtla.Conn
